@@ -1,8 +1,20 @@
-(* C09 (PARTIAL): value-level facts of the name-addr parser: expires saturation, which header
-   kinds accept several values, '*' is not a P-Asserted-Identity.  The decomposition clauses are
-   checked by the correspondence run and the render/parse oracle only. *)
-From Sipsp Require Import Harness IP4 Numbers Misc.
-Theorem C09_contact_expires_value_partial : forall ds, all_digits ds -> expires_of ds = N.min (dec ds) MaxU32.
+(* C09: name-addr values (From / To / Contact / PAI) are decomposed as written.
+   PROVED for the model, every header kind: ParseNameAddrPVal against the grammar, completeness
+   (NameAddrSpec.v), for the common shapes of a value ended by the end of the header line -
+   "<" uri ">", display-name SP "<" uri ">" (the name is reported from its first byte up to the "<",
+   which is what the library's own test expects), "<" uri ">;tag=" value: exactly the URI without the
+   brackets, the display name, the parameter span from the first parameter name to the end of the last
+   value, the tag value, the whole-value span, ok at the offset after the line, kind of header as
+   passed; the same at any offset after any bytes (C09_uri_and_tag_at_any_offset, from the C11 shift
+   theorem).  Value-level facts: expires saturation, which header kinds accept several values, '*' is
+   not a P-Asserted-Identity.  List level: capacity independence and first / last contact (C13), the
+   counts under resumption (C01/C02).
+   PARTIAL: quoted display names, bare URIs with parameters, several parameters, expires / q / lr,
+   white space and folds around ';' '=' ',', multi-value splitting at commas and the expires summary
+   are not proved against the grammar: render/parse oracle on values, lists and messages (offsets
+   != 0, chunked, reused objects) and correspondence. *)
+From Sipsp Require Import Harness IP4 Numbers Misc NameAddrSpec.
+Theorem C09_contact_expires_value : forall ds, all_digits ds -> expires_of ds = N.min (dec ds) MaxU32.
 Proof. exact contact_expires_saturates. Qed.
 Theorem C09_multi_value_header_kinds : forall h,
   multipleValsOk h = true <-> h = HdrContact \/ h = HdrRecordRoute \/ h = HdrRoute \/ h = HdrPAI.
@@ -10,3 +22,35 @@ Proof. exact multiple_values_kinds. Qed.
 Theorem C09_star_is_not_an_identity : forall buf offs s o e s', parse_one_pai buf offs s = Done o e s' ->
   fb_star s' = true -> e <> EOk /\ e <> EMoreValues.
 Proof. exact pai_star_rejected. Qed.
+
+(* ---- ParseNameAddrPVal against the grammar ----------------------------------------------------------------------------------------- *)
+Theorem C09_uri_in_angle_brackets : forall h (uri : list byte) x tail, Forall uchar uri -> is_sp x = false ->
+  let lu := nnat (length uri) in
+  parse_nameaddr h (60 :: uri ++ 62 :: CR :: LF :: x :: tail) 0 pfrom0
+  = Done (lu + 4) EOk (mkpfrom pf0 (mkpf 1 lu) pf0 false false false h 0 0 pf0 (mkpf 0 (lu + 2)) EOk 0 FbFIN 0 0 0 0 0).
+Proof. exact spec_uri_only. Qed.
+Theorem C09_display_name_and_uri : forall h n0 name (uri : list byte) x tail, nchar0 n0 -> Forall nchar name -> Forall uchar uri -> is_sp x = false ->
+  let ln := nnat (length (n0 :: name)) in let lu := nnat (length uri) in
+  parse_nameaddr h ((n0 :: name) ++ 32 :: 60 :: uri ++ 62 :: CR :: LF :: x :: tail) 0 pfrom0
+  = Done (ln + 2 + lu + 3) EOk (mkpfrom (mkpf 0 (ln + 1)) (mkpf (ln + 2) lu) pf0 false false false h 0 0 pf0 (mkpf 0 (ln + 2 + lu + 1)) EOk 0 FbFIN 0 0 0 0 0).
+Proof. exact spec_name_uri. Qed.
+Theorem C09_uri_and_tag : forall h (uri : list byte) v0 value x tail, Forall uchar uri -> vchar v0 -> Forall vchar value -> is_sp x = false ->
+  let lu := nnat (length uri) in let lv := nnat (length (v0 :: value)) in
+  parse_nameaddr h (60 :: uri ++ 62 :: 59 :: 116 :: 97 :: 103 :: 61 :: (v0 :: value) ++ CR :: LF :: x :: tail) 0 pfrom0
+  = Done (lu + 7 + lv + 2) EOk
+      (mkpfrom pf0 (mkpf 1 lu) (mkpf (lu + 7) lv) false false false h 0 0 (mkpf (lu + 3) (4 + lv)) (mkpf 0 (lu + 7 + lv)) EOk 0 FbFIN 0 0 0 0 0).
+Proof. exact spec_uri_tag. Qed.
+Theorem C09_uri_and_tag_at_any_offset : forall h (junk uri : list byte) v0 value x tail, Forall uchar uri -> vchar v0 -> Forall vchar value -> is_sp x = false ->
+  let k := nnat (length junk) in let lu := nnat (length uri) in let lv := nnat (length (v0 :: value)) in
+  exists s', parse_nameaddr h (junk ++ 60 :: uri ++ 62 :: 59 :: 116 :: 97 :: 103 :: 61 :: (v0 :: value) ++ CR :: LF :: x :: tail) k pfrom0
+             = Done (k + (lu + 7 + lv + 2)) EOk s' /\
+    fb_state s' = FbFIN /\ fb_type s' = h /\ fb_star s' = false /\ pl (fb_name s') = 0 /\
+    fb_uri s' = mkpf (k + 1) lu /\ fb_tag s' = mkpf (k + (lu + 7)) lv /\ fb_params s' = mkpf (k + (lu + 3)) (4 + lv) /\
+    fb_v s' = mkpf k (lu + 7 + lv).
+Proof. exact spec_uri_tag_at. Qed.
+(* the hypotheses are satisfiable: "Bob <sip:b>" and "<sip:b>;tag=x1" (evaluated) *)
+Example C09_example :
+  parse_nameaddr HdrFrom [66;111;98;32;60;115;105;112;58;98;62;13;10;13;10] 0 pfrom0
+  = Done 13 EOk (mkpfrom (mkpf 0 4) (mkpf 5 5) pf0 false false false HdrFrom 0 0 pf0 (mkpf 0 11) EOk 0 FbFIN 0 0 0 0 0).
+Proof. vm_compute. reflexivity. Qed.
+Print Assumptions C09_uri_and_tag_at_any_offset.
